@@ -95,9 +95,13 @@ def run(chk):
                 c = d[3] if d[3][0] == "lit" else d[2]
                 if c[0] == "lit" and ((d[1] == "Eq" and lab == "true") or (d[1] == "Ne" and lab == "false")):
                     marker = c[1]
+            # `match header[1] & 0x7F { 126 => .., 127 => .. }`: an integer switch edge
+            for s_, lab, d, info in gs:
+                if info and info.get("kind") == "int" and isinstance(lab, int) and desc_contains(d, lambda y: y[0] == "bin" and y[1] == "BitAnd"):
+                    marker = lab
             ty = t["callee"].split("impl ")[1].split(">")[0]
             endian = t["callee"].rsplit("::", 1)[1]
-            arr = b.local_ty(core.op_local(t["args"][0])) if core.op_local(t["args"][0]) is not None else ""
+            arr = (t.get("arg_tys") or [""])[0] or (b.local_ty(core.op_local(t["args"][0])) if core.op_local(t["args"][0]) is not None else "")
             facts[marker] = (ty, endian, arr)
         chk.ob("R2.decoder", DEC, "marker 126 -> u16::from_be_bytes of 2 bytes", facts.get(126, ("",))[0] == "u16" and facts[126][1] == "from_be_bytes" and "; 2]" in facts[126][2],
                f"marker 126 handled as {facts.get(126)}")
@@ -124,16 +128,19 @@ def run(chk):
             chk.ob("R3.reads", fn, "bare read in the blocking decoder", False, "a partial read would be taken for a complete field", where=prog.bodies[fn].where(blk))
         chk.floor("read_exact sites in the frame decoder", good, 5)
         # unmasking: key[i % 4]
-        cl = [c for c in prog.closures_of(DEC) if any(blk["term"] and blk["term"]["k"] == "assert" and blk["term"]["akind"] == "rem_zero" for blk in c.blocks)]
-        chk.floor("unmask closure", len(cl), 1)
+        # (closure passed to for_each, or a `for` loop in the decoder itself)
+        cl = [c for c in [b] + prog.closures_of(DEC) if c is not None and any(blk["term"] and blk["term"]["k"] == "assert" and blk["term"]["akind"] == "rem_zero" for blk in c.blocks)]
+        chk.floor("unmask site", len(cl), 1)
         for c in cl:
             ok = False
             for blk in c.blocks:
                 t = blk["term"]
                 if t and t["k"] == "assert" and t["akind"] == "bounds":
                     d = [describe(prog, c, o) for o in t["ops"]]
-                    if d[0] == ("lit", 4) and d[1][0] == "bin" and d[1][1] == "Rem" and d[1][3] == ("lit", 4):
-                        ok = True
+                    if d[0] == ("lit", 4) and d[1][0] == "bin" and d[1][1] == "Rem":
+                        per = panics._range_of(prog, c, d[1][3])
+                        if per == (4, 4):
+                            ok = True
             chk.ob("R2.unmask", c.path, "payload[i] ^= masking_key[i % 4]", ok, "the masking key is not applied with period 4")
     # ---- encoder
     enc = prog.impl_fn(r"^<std::vec::Vec<u8> as std::convert::From<humphrey_ws::frame::Frame>>$", "from")
